@@ -45,6 +45,7 @@ AREA_CHECKS = [
     ('pydbml/', ['C01', 'C02', 'C03']),
 ]
 
+GRAMMAR_OPS = False
 CMP_SWAP = {ast.Eq: ast.NotEq, ast.NotEq: ast.Eq, ast.Lt: ast.LtE, ast.LtE: ast.Lt, ast.Gt: ast.GtE, ast.GtE: ast.Gt,
             ast.Is: ast.IsNot, ast.IsNot: ast.Is, ast.In: ast.NotIn, ast.NotIn: ast.In}
 
@@ -89,6 +90,9 @@ def mutants(src):
                     sites.append(('cmp', node, k))
         elif isinstance(node, ast.BoolOp):
             sites.append(('boolop', node, None))
+        elif isinstance(node, ast.BinOp) and GRAMMAR_OPS and isinstance(node.op, (ast.Sub, ast.BitOr)):
+            # grammar files: `a - b` (pyparsing error stop) -> `a + b`, `a | b` (first match) -> `a ^ b` (longest match)
+            sites.append(('grammar-op', node, None))
         elif isinstance(node, ast.UnaryOp) and isinstance(node.op, ast.Not):
             sites.append(('dropnot', node, None))
         elif isinstance(node, (ast.If, ast.IfExp, ast.While)):
@@ -132,6 +136,8 @@ def mutants(src):
         before = ast.unparse(node)[:100]
         if kind == 'cmp':
             target.ops[k] = CMP_SWAP[type(target.ops[k])]()
+        elif kind == 'grammar-op':
+            target.op = ast.Add() if isinstance(target.op, ast.Sub) else ast.BitXor()
         elif kind == 'boolop':
             target.op = ast.Or() if isinstance(target.op, ast.And) else ast.And()
         elif kind == 'dropnot':
@@ -235,7 +241,7 @@ def summary():
             continue
         for line in open(os.path.join(OUT, fn)):
             r = json.loads(line)
-            k = (r['file'], r['index'])
+            k = (r['file'], r['operator'] == 'grammar-op', r['index'])
             if k not in best or rank.get(r['result'], 0) > rank.get(best[k]['result'], 0):
                 best[k] = r        # (a mutant processed twice — two sweep processes, or re-run after a check was strengthened — counts once)
     for r in best.values():
@@ -269,16 +275,21 @@ def main():
     ap.add_argument('--budget-min', type=float, default=200)
     ap.add_argument('--summary', action='store_true')
     ap.add_argument('--list', action='store_true')
+    ap.add_argument('--grammar-ops', action='store_true', help='only the pyparsing operator mutants (- -> +, | -> ^); results go to <file>.grammar.jsonl')
     ap.add_argument('--recheck', default='', help='comma-separated mutant indices of the single file given: process them again')
     a = ap.parse_args()
     os.makedirs(OUT, exist_ok=True)
     if a.summary:
         return summary()
     deadline = time.time() + a.budget_min * 60
+    global GRAMMAR_OPS
+    GRAMMAR_OPS = a.grammar_ops
     for path in [f for f in a.files.split(',') if f]:
         src = open(os.path.join('/repo', path)).read()
         ms = list(mutants(src))
-        outp = os.path.join(OUT, path.replace('/', '__') + '.jsonl')
+        if a.grammar_ops:
+            ms = [m for m in ms if m[0] == 'grammar-op']
+        outp = os.path.join(OUT, path.replace('/', '__') + ('.grammar' if a.grammar_ops else '') + '.jsonl')
         done = set()
         if os.path.exists(outp):
             for line in open(outp):
